@@ -24,6 +24,10 @@ structure FnTable where
   callExprs : List (String × String)
   /-- parameter names of the scipy function -/
   scipyParams : List String
+  /-- `(wrapper parameter, source text of its default)`; parameters without a default are absent -/
+  defaults : List (String × String) := []
+  /-- `(scipy parameter, repr of its default)` from `inspect.signature` -/
+  scipyDefaults : List (String × String) := []
 
 /-- pass-through parameters of `minimize`: they must reach scipy unchanged under the same name -/
 def expectedVerbatimMinimize : List (String × String) :=
@@ -46,6 +50,23 @@ theorem checkFn_sound (t : FnTable) (expected : List (String × String)) (h : ch
   simp only [checkFn, Bool.and_eq_true, List.all_eq_true, Bool.or_eq_true, List.contains_iff_mem] at h
   obtain ⟨⟨h1, h2⟩, h3⟩ := h
   exact ⟨h1, h2, h3⟩
+
+/-- defaults: a pass-through parameter the caller omits must mean what omitting it means in scipy,
+    i.e. the wrapper's default is scipy's default — except for the parameters listed in `allowed`
+    (deliberate, visible in the signature: `minimize(method="L-BFGS-B")`) -/
+def checkDefaults (t : FnTable) (allowed : List String) : Bool :=
+  t.verbatim.all (fun kp => allowed.contains kp.2 || (t.defaults.lookup kp.2 == t.scipyDefaults.lookup kp.1))
+
+theorem checkDefaults_sound (t : FnTable) (allowed : List String) (h : checkDefaults t allowed = true) :
+    ∀ kp ∈ t.verbatim, kp.2 ∉ allowed → t.defaults.lookup kp.2 = t.scipyDefaults.lookup kp.1 := by
+  intro kp hkp hna
+  simp only [checkDefaults, List.all_eq_true, Bool.or_eq_true, beq_iff_eq] at h
+  rcases h kp hkp with h1 | h1
+  · exact absurd (List.contains_iff_mem.1 h1) hna
+  · exact h1
+
+/-- the deliberate default of `minimize` -/
+def allowedDefaultDiffMinimize : List String := ["method"]
 
 /-- the literal list in the code, lower-cased by the translator, is the modelled list; that is exactly scipy's solvers minus the
     gradient-free ones; the installed scipy has the modelled solver set -/
